@@ -73,6 +73,101 @@ def exact_reads(chk, prog, rid):
     chk.floor("read_exact sites in the frame decoder", good, 2)
 
 
+def frame_integrity(chk, prog, rid_fields="R6.frame_fields", rid_ahead="R6.no_read_ahead"):
+    """(1) `length` and `payload` of a Frame are one fact: the encoder writes the header from `length` and the body from `payload`, so a Frame
+    whose payload (or length) is changed after it was built — anywhere outside the decoder that fills it — serialises to a header that
+    announces one size and a body of another.  (2) No reader on the frame path wraps the connection in a buffering reader that does not
+    outlive the call: what it read ahead (the next frame, a continuation fragment, a Ping or Close) is dropped with it."""
+    st = prog.structs.get("humphrey_ws::frame::Frame", {}).get("fields", [])
+    frozen = {i: x["name"] for i, x in enumerate(st) if x["name"] in ("payload", "length")}
+    chk.floor("Frame.payload / Frame.length fields", len(frozen), 2)
+    n_bodies = 0
+    for p, b in sorted(prog.bodies.items()):
+        if not (p.startswith("humphrey_ws::") or p.startswith("<humphrey_ws::")) or "promoted" in p:
+            continue
+        n_bodies += 1
+        if p == DEC or p.startswith(DEC + "::"):
+            continue        # the decoder fills the payload it has just allocated with the decoded length (read_exact, unmask)
+        for bi, blk in enumerate(b.blocks):
+            if blk.get("cleanup"):
+                continue
+            for st_ in blk["stmts"]:
+                if "pl" not in st_ or "rv" not in st_:
+                    continue
+                rv = st_["rv"]
+                # a store into frame.payload / frame.length (also through a reference), or a `&mut frame.payload` handed to a mutating call
+                for pl, how in ((st_["pl"], "assigned"), (rv.get("pl") if rv.get("k") in ("ref", "rawptr") and rv.get("mut", rv.get("k") == "rawptr") else None, "mutably borrowed")):
+                    if not pl:
+                        continue
+                    ty = b.local_ty(pl["l"]) or ""
+                    cur = ty
+                    for e in pl["p"]:
+                        if e[0] == "f":
+                            base = cur.lstrip("&").replace("mut ", "", 1) if cur.startswith("&") else cur
+                            if base.endswith("frame::Frame") and e[1] in frozen:
+                                # an aggregate assignment of the whole struct is not a projection; this is a write to one field
+                                chk.ob(rid_fields, p, f"Frame.{frozen[e[1]]} is not changed after the frame was built", False,
+                                       f"field `{frozen[e[1]]}` of a Frame is {how} outside the decoder: `length` (header) and `payload` (body) of the serialised frame can disagree",
+                                       where=b.where(bi))
+                            cur = e[2]
+                        elif e[0] == "d":
+                            cur = cur.lstrip("&")
+                            if cur.startswith("mut "):
+                                cur = cur[4:]
+    chk.ob(rid_fields, "humphrey_ws", "bodies scanned for writes to Frame.payload / Frame.length", n_bodies >= 10, f"{n_bodies} bodies")
+    # (2) read-ahead
+    roots = ["humphrey_ws::frame::Frame::from_stream", "humphrey_ws::frame::Frame::from_stream_nonblocking", DEC,
+             "humphrey_ws::message::Message::from_stream", "humphrey_ws::message::Message::from_stream_nonblocking",
+             "humphrey_ws::stream::WebsocketStream::recv", "humphrey_ws::stream::WebsocketStream::recv_nonblocking"]
+    have = [r for r in roots if r in prog.bodies]
+    chk.floor("frame / message reader entry points", len(have), 5)
+    reach = prog.reach_bodies(set(have))
+    n_sites = 0
+    for p in sorted(reach):
+        pb = prog.bodies[p]
+        if not (p.startswith("humphrey_ws::") or p.startswith("<humphrey_ws::")):
+            continue
+        n_sites += 1
+        for blk, t in pb.calls_to(r"(BufReader::<R>::(new|with_capacity)|LineWriter::<W>::new|io::Read::take|io::Read::chain)$"):
+            if not core.re.search(r"BufReader", t["callee"]):
+                continue
+            escapes = "BufReader" in (pb.local_ty(0) or "")
+            chk.ob(rid_ahead, p, "no buffering reader around the connection that is dropped when the call returns", escapes,
+                   "a BufReader is wrapped around the stream for one call and dropped at return: bytes of the following frame that it read ahead are lost "
+                   "(two frames delivered in one segment: the second never arrives)", where=pb.where(blk))
+    chk.ob(rid_ahead, "humphrey_ws", "reader bodies scanned for a dropped read-ahead buffer", n_sites >= 5, f"{n_sites} bodies")
+
+
+def decoder_outcomes(chk, prog, rid="R7.decoder_outcomes"):
+    """The decoder returns the frame it parsed, or fails for one of two reasons: a read failed (ReadError) or the opcode is reserved
+    (InvalidOpcode).  (a) every Frame it returns is the aggregate built from the parsed header fields — no constructor that fills in
+    defaults (Frame::new sets FIN and clears RSV); (b) no other error is produced: the payload is opaque at this layer."""
+    fns = [DEC, "humphrey_ws::frame::Frame::from_stream", "humphrey_ws::frame::Frame::from_stream_nonblocking"]
+    seen_agg = 0
+    for fn in fns:
+        bodies = [prog.bodies[fn]] + prog.all_closures_of(fn) if fn in prog.bodies else []
+        for b in bodies:
+            for bi, blk in enumerate(b.blocks):
+                if blk.get("cleanup"):
+                    continue
+                for s in blk["stmts"]:
+                    rv = s.get("rv")
+                    if rv and rv.get("k") == "agg" and rv.get("adt", "").endswith("frame::Frame"):
+                        seen_agg += 1
+                    if rv and rv.get("k") == "agg" and rv.get("adt", "").endswith("error::WebsocketError"):
+                        v = rv.get("variant")
+                        chk.ob(rid, b.path, f"the decoder's errors are ReadError / InvalidOpcode only [{v}]", v in ("ReadError", "InvalidOpcode"),
+                               f"the frame decoder fails with {v}: a well-formed frame (any payload bytes under any opcode) is refused", where=b.where(bi))
+                t = blk["term"]
+                if t and t["k"] == "call":
+                    dty = b.local_ty(t["dest"]["l"]) if t.get("dest") and not t["dest"]["p"] else ""
+                    if (dty or "").endswith("frame::Frame") and not core.call_matches(t, r"(Clone>?::clone|from_stream_inner|from_stream)$"):
+                        chk.ob(rid, b.path, "a decoded Frame is built from the parsed header fields", False,
+                               f"the decoder returns a Frame made by {t['callee']}: fields it does not take (FIN, RSV, mask, key) are defaults, not what was on the wire",
+                               where=b.where(bi))
+    chk.floor("Frame aggregates built by the decoder", seen_agg, 1)
+
+
 def run(chk):
     prog = chk.use(core.load("A", fresh=(chk.tier == "thorough")))
     chk.explanation = (
@@ -258,6 +353,8 @@ def run(chk):
         chk.ob("R2.decoder", DEC, "marker 127 -> u64::from_be_bytes of 8 bytes", facts.get(127, ("",))[0] == "u64" and facts[127][1] == "from_be_bytes" and "; 8]" in facts[127][2],
                f"marker 127 handled as {facts.get(127)}")
         exact_reads(chk, prog, "R3.reads")
+        decoder_outcomes(chk, prog)
+        frame_integrity(chk, prog)
         # "decode under any split" holds for the non-blocking reader too: the count of its bare read() of the header is used (a header that
         # arrives 1 + 1 is completed, not parsed from a half-filled buffer) — C03's PARTIALREAD rule on that reader
         from . import c03 as _c03
